@@ -25,6 +25,7 @@ func runC04(c *Check, w *World) {
 		return
 	}
 	wantCentre := fmt.Sprintf("calldyn(gval(otp.TimeCounterFunc); param(%s#%d); %s)", fn, tp, periodTerm(fn, pp, "DefaultTOTPParam"))
+	ruleWasmWindow(c, w, tb, iv, "R04.W", "validateTOTP", false)
 	wr := analyseWindow(c, w, tb, iv, "R04", val, isStepValidator(w), wantCentre, false)
 	if wr != nil {
 		if wr.sizeT != nil {
@@ -83,8 +84,8 @@ func init() {
 		explain: "Same rule set as C03 on ValidateTOTP: R04.1 the skew is exactly within [0,10] at the loop by a dominating gate (this is also the 'work per call is bounded' clause: at most 21 steps); R04.2 one loop i = -s … +s; " +
 			"R04.3 step i validates TimeCounterFunc(t, period) + i, the time-step function being floor(unix/period) (R02.1) and never reassigned; R04.5 acceptance only under that iteration's verdict; R04.6 the shared constant-time comparison core with the same derivation, digits and key; " +
 			"R04.7 nil parameters resolve to DefaultTOTPParam = {6, SHA-1, 30 s, 0}; R04.8 generation and validation resolve the period identically (0 → 30 s). No underflow guard is required: the property's domain has the whole window at or after step 0.",
-		quick:    []Config{CfgNative},
-		thorough: []Config{CfgNative, Cfg386},
+		quick:    []Config{CfgNative, CfgWasm},
+		thorough: []Config{CfgNative, CfgWasm, Cfg386},
 		run:      runC04,
 	})
 }
